@@ -454,12 +454,22 @@ def depthE : List (Val × Val) → Nat
 end
 
 /-- `serde_json`'s reader gives up beyond 127 container levels ("recursion limit exceeded"),
-`serde_yaml_ng`'s beyond 128, `toml`'s beyond 81 (the top-level table included). The writers have no
-limit, so a deeper value serializes but cannot be read back (finding F-C20-5). Measured constants of
+`serde_yaml_ng`'s beyond 128, `toml`'s beyond 81 (the top-level table included). The writer's limit is
+128 for all formats (`writerDepthLimit`), so a value of depth 128 (JSON) or 82 … 128 (TOML) serializes
+but cannot be read back (finding F-C20-5). Measured constants of
 the pinned crates; exercised at the boundary by (K) on every run. -/
 def jsonDepthLimit : Nat := 127
 def yamlDepthLimit : Nat := 128
 def tomlDepthLimit : Nat := 81
+
+/-- `NESTING_LIMIT` of serialize.rs (commit c53b26d): entering a list, tuple or map while 128
+containers are already being serialized is an error ("nested more than 128 levels deep") -/
+def writerDepthLimit : Nat := 128
+
+/-- **serialize.rs as it is**: the mapping `ser`, refused as a whole when some path of the value
+nests more than `writerDepthLimit` containers (the traversal fails at the first container of level
+129, and an error anywhere is an error of the whole call). -/
+def serW (X : Ext) (v : Val) : Option SVal := if depth v ≤ writerDepthLimit then ser X v else none
 
 /-- what `serde_json` hands over for an integer literal: `i64` if it fits, else `u64` if it fits,
 else the nearest `f64` (so only the literals in `(i64::MAX, u64::MAX]` reach `visit_u64` and are
@@ -517,6 +527,7 @@ def serG (g : Graph) : Nat → List Nat → Nat → Option SVal
   | 0, _, _ => none
   | fuel + 1, path, i =>
     if i ∈ path then none   -- "a container that contains itself"
+    else if writerDepthLimit ≤ path.length then none   -- "nested more than 128 levels deep"
     else
       match g[i]? with
       | none => none
